@@ -699,6 +699,8 @@ class Interp:
             ovf_certain = r[1] < tr[0] or r[0] > tr[1]
             if ovf_certain:
                 res = self.top(st, rty, 'ovf')
+            elif r[0] == r[1]:
+                res = const_int(r[0], tn)   # exactly known: fold to the constant
             else:
                 v = D.term_vid(st, term, max(r[0], tr[0]), min(r[1], tr[1]), aff)
                 res = ('i', v, tn)
@@ -708,6 +710,8 @@ class Interp:
         if r[0] < tr[0] or r[1] > tr[1]:
             # unchecked operation that may wrap
             return self.top(st, rty, 'wrapped')
+        if r[0] == r[1] and tn != 'bool':
+            return const_int(r[0], tn)
         v = D.term_vid(st, term, r[0], r[1], aff)
         return ('i', v, tn)
 
